@@ -103,7 +103,10 @@ def run_case(res, w, home, roots, snaps, spec, trace):
         cwd = os.path.join(w, roots[spec[0][0]])
     for (ri, spelling, a, b, mode) in spec:
         name = roots[ri]
-        if spelling in (".", "implicit"):
+        if name.startswith("~/"):
+            # a root below the home directory, written with a tilde (or with the directory it stands for)
+            p = name if spelling == "tilde" else os.path.join(home, name[2:])
+        elif spelling in (".", "implicit"):
             p = "."
         elif spelling == "rel":
             p = name
@@ -182,7 +185,7 @@ def run_case(res, w, home, roots, snaps, spec, trace):
                 seen_dirs[canon] = seen_dirs.get(canon, 0) + 1
                 # model level of children of this directory
                 for (ri, _s, _a, _b, _m) in spec:
-                    rootabs = os.path.realpath(os.path.join(w, roots[ri]))
+                    rootabs = os.path.realpath(os.path.join(home, roots[ri][2:]) if roots[ri].startswith("~/") else os.path.join(w, roots[ri]))
                     if canon == rootabs or canon.startswith(rootabs + "/"):
                         lvl = 1 if canon == rootabs else canon[len(rootabs) + 1:].count("/") + 2
                         if int(ev["depth"]) != lvl:
@@ -242,6 +245,10 @@ def run_job(job):
             tree.materialise(os.path.join(w, "zp"), tree.gen_tree(rng, max_entries=8, max_depth=2, kinds=("file", "dir")))
             roots = roots + ["zp"]
             snaps.append(tree.snapshot(os.path.join(w, "zp")))
+            os.mkdir(os.path.join(home, "hr"))
+            tree.materialise(os.path.join(home, "hr"), tree.gen_tree(rng, max_entries=8, max_depth=3, kinds=("file", "dir", "symlink")))
+            roots = roots + ["~/hr"]
+            snaps.append(tree.snapshot(os.path.join(home, "hr")))
             for qi in range(job["queries"]):
                 k = rng.randint(1, nroots)
                 idxs = rng.sample(range(nroots), k)
@@ -258,10 +265,14 @@ def run_job(job):
                         a = b = None
                         mode = ""
                     spec.append((ri, sp, a, b, mode))
+                if rng.random() < 0.15 and all(x[1] not in (".", "implicit") for x in spec):
+                    spec.insert(rng.randint(0, len(spec)), (len(roots) - 1, rng.choice(["tilde", "tilde", "abs"]), rng.choice([None, None, 1, 2]),
+                                                            rng.choice([None, None, 1, 3]), rng.choice(["", "dfs"])))
+                    res.count("tilde_roots")
                 if rng.random() < 0.3 and all(x[1] not in (".", "implicit") for x in spec):
                     pm = rng.choice(["symlinks", "symlinks", "dfs symlinks", "symlinks bfs", "symlinks dfs"])
                     spec.insert(rng.choice([0, 0, rng.randint(0, len(spec))]),
-                                (len(roots) - 1, rng.choice(["rel", "abs", "dotrel"]), rng.choice([None, None, 1, 2]), rng.choice([None, None, 1, 3]), pm))
+                                (len(roots) - 2, rng.choice(["rel", "abs", "dotrel"]), rng.choice([None, None, 1, 2]), rng.choice([None, None, 1, 3]), pm))
                 run_case(res, w, home, roots, snaps, spec, trace=(qi % 4 == 0))
         elif job["kind"] == "nonutf8":
             # names that are not valid UTF-8 (legal on Linux): rows are printed lossily, so entries can only be counted:
